@@ -72,6 +72,118 @@ func c06(r *core.Report) {
 	// callback re-arming its own timer
 	r.Rule("C06-RETRANSMIT-TIMER", "the timer's fire routine clears its pending flag before the callback and never after it; Reset sets it", 3)
 	ruleTimer(r, "C06-RETRANSMIT-TIMER")
+	// ---- C06-INFLIGHT-KEPT: a handshake in flight survives until its own expiry. expireSessions runs on every
+	// Send/WaitReady/rekey; if it empties the prospective (or previous) slot for any other reason, a second caller
+	// arriving while a reply is delayed throws the in-flight session away, the peer keeps answering the old
+	// InitHello, and neither side becomes ready until the stale responder session expires.
+	r.Rule("C06-INFLIGHT-KEPT", "expireSessions empties the prospective and the previous slot only on the edge where that slot's own session has expired", 2)
+	if es := needFn(r, "p/p2pke", "Channel.expireSessions"); es != nil {
+		p := r.P
+		r.Analysed(es)
+		expAt := needFn(r, "p/p2pke", "Session.ExpiresAt")
+		// the slot a session value was loaded from
+		slotOf := func(v ssa.Value) int64 {
+			slot := int64(-1)
+			core.BackSlice(v, func(x ssa.Value) bool {
+				if ia, ok := x.(*ssa.IndexAddr); ok {
+					if f, _ := core.FieldRead(ia.X); f != nil && f.Name() == "sessions" {
+						if k, isK := core.ConstInt(ia.Index); isK && slot < 0 {
+							slot = k
+						}
+					} else if fa, isFA := ia.X.(*ssa.FieldAddr); isFA {
+						if ff, _ := core.FieldOfAddr(fa); ff != nil && ff.Name() == "sessions" {
+							if k, isK := core.ConstInt(ia.Index); isK && slot < 0 {
+								slot = k
+							}
+						}
+					}
+				}
+				return slot < 0
+			})
+			return slot
+		}
+		for _, want := range []int64{0, 2} {
+			name := map[int64]string{0: "previous", 2: "prospective"}[want]
+			// edges on which "sessions[want].Session.ExpiresAt().Before(now)" is known true
+			ownExpired := core.CutWhere(func(cond ssa.Value) int {
+				c, ok := cond.(*ssa.Call)
+				if !ok {
+					return 0
+				}
+				// a local predicate `func(s *Session) bool { return s != nil && s.ExpiresAt().Before(now) }`
+				if lit := core.ClosureFn(c.Common().Value); lit != nil && len(lit.Params) == 1 && len(c.Call.Args) == 1 {
+					okLit, some := true, false
+					for _, ret := range core.Returns(lit) {
+						for _, v := range core.ReturnValues(ret, 0) {
+							vals := []ssa.Value{v}
+							if ph, isPhi := v.(*ssa.Phi); isPhi {
+								vals = ph.Edges
+							}
+							for _, x := range vals {
+								if b, isK := core.ConstBool(x); isK && !b {
+									continue
+								}
+								bc, isC := x.(*ssa.Call)
+								if !isC || core.CalleeName(bc.Common()) != "(time.Time).Before" {
+									okLit = false
+									continue
+								}
+								e, _, isRes := core.CallResult(bc.Call.Args[0])
+								if !isRes || expAt == nil || !core.IsCallToFn(e.Common(), expAt) || len(e.Call.Args) == 0 || e.Call.Args[0] != ssa.Value(lit.Params[0]) {
+									okLit = false
+									continue
+								}
+								some = true
+							}
+						}
+					}
+					if okLit && some && slotOf(c.Call.Args[0]) == want {
+						return 1
+					}
+					return 0
+				}
+				if core.CalleeName(c.Common()) != "(time.Time).Before" {
+					return 0
+				}
+				e, _, isRes := core.CallResult(c.Call.Args[0])
+				if !isRes || expAt == nil || !core.IsCallToFn(e.Common(), expAt) || len(e.Call.Args) == 0 {
+					return 0
+				}
+				if slotOf(e.Call.Args[0]) != want {
+					return 0
+				}
+				return 1
+			})
+			n := 0
+			for _, in := range core.AllInstrs(es) {
+				st, ok := in.(*ssa.Store)
+				if !ok {
+					continue
+				}
+				ia, isIA := st.Addr.(*ssa.IndexAddr)
+				if !isIA {
+					continue
+				}
+				k, isK := core.ConstInt(ia.Index)
+				if !isK || k != want {
+					continue
+				}
+				// slot 0 is also written when the current session is retired into it: only stores of the
+				// zero entry empty a slot
+				if _, fromOther := st.Val.(*ssa.UnOp); fromOther {
+					continue
+				}
+				n++
+				r.Check(core.GuardEdges(es, ownExpired) > 0 && !core.Reach(es, nil, ownExpired, nil)[in], "C06-INFLIGHT-KEPT", "expireSessions empties the "+name+" slot", p.Pos(st.Pos()),
+					"reached only where that slot's session ExpiresAt() is before now",
+					"the "+name+" slot can be emptied although its session has not expired: a handshake in flight is discarded by the next Send/WaitReady/rekey and replaced by one the peer's responder session does not answer")
+			}
+			if n == 0 {
+				r.Fail("C06-INFLIGHT-KEPT: no store emptying the %s slot found in expireSessions", name)
+			}
+		}
+	}
+
 	r.Rule("C06-PAIR-CLOSURE", "two honest sessions under arbitrary delivery of their genuine messages: no panic, one round from ready", 1)
 	ts.checkPairClosure("C06-PAIR-CLOSURE")
 }
